@@ -209,6 +209,10 @@ func cloneShadow(m map[string]cfgEnt) map[string]cfgEnt {
 }
 
 type c01Hist struct {
+	sw         *sim.SimWriter // the sink, when the lane injects transient failures
+	transient  bool           // inject single-shot write failures (nothing accepted) on records that change no configuration
+	lastCfgKey string         // canonical file configuration of the last acknowledged result
+	dropped    int
 	shadow     map[string]cfgEnt   // what the API calls so far mean for prev (independent of the Result's own bookkeeping)
 	oldShadows []map[string]cfgEnt // same for olds
 	r     *sim.Run
@@ -233,11 +237,39 @@ func (h *c01Hist) write(rec Record, what string) bool {
 		}
 	}
 	h.r.Logf("%s -> %s", what, m)
+	cfgKey := ""
+	if !m.meta {
+		cfgKey = fmt.Sprint(len(h.shadow), m.String()[strings.Index(m.String(), "cfg="):strings.Index(m.String(), "vals=")])
+		var ik []string
+		for k, e := range h.shadow { // internal entries count too: the writer tracks them
+			if !e.file {
+				ik = append(ik, fmt.Sprintf("|%s=%s", k, e.val))
+			}
+		}
+		sort.Strings(ik)
+		cfgKey += strings.Join(ik, "")
+	}
+	if h.transient && !m.meta && len(h.model) > 0 && cfgKey == h.lastCfgKey && h.T.Intn(4, "transient-failure") == 0 {
+		// a transient failure of the sink on a record that needs no configuration lines: nothing is accepted,
+		// the error is reported, the caller carries on with the next record
+		h.sw.ErrAtCall = h.sw.Calls
+		err := h.w.Write(rec)
+		h.sw.ErrAtCall = -1
+		if err == nil {
+			h.r.Fail("roundtrip", "api/write-error-swallowed", "the sink rejected a record but Writer.Write returned nil")
+		}
+		h.r.Logf("transient write error, record dropped")
+		h.dropped++
+		return true
+	}
 	if err := h.w.Write(rec); err != nil {
 		h.r.Logf("write error: %v", err)
 		return false
 	}
 	h.model = append(h.model, m)
+	if !m.meta {
+		h.lastCfgKey = cfgKey
+	}
 	return true
 }
 
@@ -441,7 +473,7 @@ func c01LaneAPI(t *testing.T, r *sim.Run, faults bool) {
 			sw.Sticky = true
 		}
 	}
-	h := &c01Hist{r: r, T: T, w: NewWriter(sw), metas: map[string]bool{}}
+	h := &c01Hist{r: r, T: T, w: NewWriter(sw), metas: map[string]bool{}, sw: sw, transient: r.Lane == "api+transient-failures"}
 	failed := false
 	for i := 0; i < n; i++ {
 		if !h.step() {
@@ -463,6 +495,9 @@ func c01LaneAPI(t *testing.T, r *sim.Run, faults bool) {
 	}
 	if failed {
 		r.Hit("writer stopped after injected write error")
+	}
+	if h.dropped > 0 {
+		r.Hit("writing continued after a transient failure of the sink")
 	}
 }
 
@@ -492,8 +527,13 @@ var c01Engine = &sim.Engine{
 			r.Lane = "api"
 			c01LaneAPI(t, r, false)
 		case 2:
-			r.Lane = "api+write-faults"
-			c01LaneAPI(t, r, true)
+			if r.T.Bool("transient-lane") {
+				r.Lane = "api+transient-failures"
+				c01LaneAPI(t, r, false)
+			} else {
+				r.Lane = "api+write-faults"
+				c01LaneAPI(t, r, true)
+			}
 		case 3:
 			r.Lane = "text"
 			c01LaneText(t, r)
